@@ -1,13 +1,13 @@
 #!/usr/bin/env python3
-"""Sensitivity of the two registered checks: break the property on purpose, confirm the check says so, undo.
+"""Sensitivity of the registered checks: break the property on purpose, confirm the check says so, undo.
 
 Each entry is a small textual edit of /repo (applied with a guard that the original text occurs exactly as
-expected, reverted with `git checkout -- .` whatever happens) that violates C17 or C18 while the crate still
+expected, reverted with `git checkout -- .` whatever happens) that violates C16, C17 or C18 while the crate still
 compiles.  For each one the corresponding quick check must exit 1 with a VIOLATION line; on the clean tree it
 must exit 0.  These are *my own* mutants (the independent ones are under /verif/seeded); they exist so that
 a change to the simulators that makes them blind is noticed.
 
-usage: sensitivity.py [C17|C18|all]        exit 0 = every mutant detected and the clean tree passes
+usage: sensitivity.py [C16|C17|C18|all]        exit 0 = every mutant detected and the clean tree passes
 """
 import subprocess
 import sys
@@ -27,6 +27,16 @@ MUTANTS = [
     ("C18", "symbol write error swallowed", "src/derivative.rs", '            write!(f, "{symbol}")?;\n        }\n        write!(f, "")', '            let _ = write!(f, "{symbol}");\n        }\n        write!(f, "")'),
     ("C18", "DualVec ignores an error while writing the real part", "src/dual_vec.rs", 'write!(f, "{}", self.re)?;\n        self.eps.fmt(f, "ε")', 'let _ = write!(f, "{}", self.re);\n        self.eps.fmt(f, "ε")'),
     ("C18", "Dual2Vec returns Ok after a failed first part", "src/dual2_vec.rs", 'self.v1.fmt(f, "ε1")?;', 'let _ = self.v1.fmt(f, "ε1");'),
+    # ---- C16: stored form (fault-free), and errors of the data format swallowed (only under a fault at the seam) ------
+    ("C16", "Dual: result of one serialize_field ignored (hand-written Serialize)", "@patch", "/verif/tools/mutants16/m1_ser_field_error_ignored.diff", None),
+    ("C16", "Dual2: real part stored under another name", "@patch", "/verif/tools/mutants16/m2_field_renamed.diff", None),
+    ("C16", "HyperDual: a zero mixed part is not stored", "@patch", "/verif/tools/mutants16/m3_zero_part_skipped.diff", None),
+    ("C16", "Dual3: a nested part that fails to deserialize becomes zero", "@patch", "/verif/tools/mutants16/m4_de_error_replaced_by_zero.diff", None),
+    ("C16", "HyperHyperDual: the phantom marker is stored", "@patch", "/verif/tools/mutants16/m5_marker_stored.diff", None),
+    ("C16", "seeded C16-a: zero-normalising serialize_with helper", "@patch", "/verif/seeded/C16-a/patch.diff", None),
+    ("C16", "seeded C16h-1: tuple form for binary formats with two parts exchanged", "@patch", "/verif/seeded/C16h-1/patch.diff", None),
+    ("C16", "seeded C16h-2: keys accepted only as borrowed strings", "@patch", "/verif/seeded/C16h-2/patch.diff", None),
+    ("C16", "seeded C16h-3: map entries assigned by position", "@patch", "/verif/seeded/C16h-3/patch.diff", None),
     # ---- C17: conformance (fault-free) ---------------------------------------------------------------------
     ("C17", "arcsin forwards to asinh", "src/python_macro.rs", "self.0.asin().into()", "self.0.asinh().into()"),
     ("C17", "reflected subtraction with swapped operands", "src/python_macro.rs", "(-self.0.clone() + lhs).into()", "(self.0.clone() - lhs).into()"),
@@ -49,6 +59,11 @@ MUTANTS = [
 # brackets, spacing, line breaks).  The check must stay silent on them (exit 0): they guard against an oracle
 # that demands more than the property states.
 CONTROLS = [
+    # C16 promises names, values and completeness - not the order of the fields, the struct's name, or strictness
+    ("C16", "Dual: fields declared (and therefore written) in another order", "@patch", "/verif/tools/controls16/k1_fields_declared_in_another_order.diff", None),
+    ("C16", "Dual2: an alias accepted on input", "@patch", "/verif/tools/controls16/k2_alias_accepted.diff", None),
+    ("C16", "HyperDual: deny_unknown_fields", "@patch", "/verif/tools/controls16/k3_deny_unknown_fields.diff", None),
+    ("C16", "Dual3: the struct's serde name changed", "@patch", "/verif/tools/controls16/k4_struct_renamed.diff", None),
     ("C18", "Dual: no spaces around +, a space before the symbol", "src/dual.rs", 'write!(f, "{} + {}ε", self.re, self.eps)', 'write!(f, "{}+{} ε", self.re, self.eps)'),
     ("C18", "vector parts in parentheses separated by semicolons", "src/derivative.rs", 'write!(f, "[{}]", x.join(", "))?', 'write!(f, "({})", x.join("; "))?'),
     ("C18", "HyperHyperDual: one part per line", "src/hyperhyperdual.rs", '"{} + {}ε1 + {}ε2 + {}ε3 + {}ε1ε2 + {}ε1ε3 + {}ε2ε3 + {}ε1ε2ε3"', '"{}\\n + {}ε1\\n + {}ε2\\n + {}ε3\\n + {}ε1ε2\\n + {}ε1ε3\\n + {}ε2ε3\\n + {}ε1ε2ε3"'),
@@ -87,7 +102,7 @@ def main():
     # every check run rewrites the evidence file; the committed evidence must describe the clean tree
     atexit.register(lambda: (shutil.copytree(backup, "/verif/evidence", dirs_exist_ok=True), shutil.rmtree(backup, ignore_errors=True)))
     ok = True
-    for prop in ("C17", "C18"):
+    for prop in ("C16", "C17", "C18"):
         if which in (prop, "all"):
             r = sh(["/verif/check.sh", prop, "quick"])
             good = r.returncode == 0 and "VIOLATION" not in r.stdout
@@ -124,6 +139,7 @@ def main():
                 print("     " + r.stderr.strip().splitlines()[-1][:200] if r.stderr.strip() else "")
         finally:
             sh(["git", "-C", REPO, "checkout", "--", "."])
+            sh(["git", "-C", REPO, "clean", "-fdq", "src"])
     for prop, name, path, old, new in CONTROLS:
         if which not in (prop, "all"):
             continue
